@@ -20,7 +20,7 @@ theorem accepted_meets_documented (c : Config) (h : validate false c = []) :
 example : validate false dist = [] := by decide
 def exBoundary : Config :=
   { dist with v4Len := 32, v6Len := 128, caType := "ecs", caEcs := 1, kvType := "redis", kvTtl := 1000000,
-              clStop := 1, clResume := 1, dnsIdle := 6553500000000, dnsUdp := 65535 }
+              clStop := 6, clResume := 6, dnsIdle := 6553500000000, dnsUdp := 65535 }
 example : validate false exBoundary = [] := by decide
 
 set_option maxHeartbeats 4000000 in
@@ -29,7 +29,7 @@ constructors and of the per-query code (`Safe`). -/
 theorem validate_sound (c : Config) (h : validate false c = []) : Safe c := by
   simp [validate, valRatelimit, valAllow, valConn, valOpts, valKeyLen, valUpstream, valCache, valDnsdb,
     valDns, valBackend, valGeo, valKv_eq_nil, valCheck, valWeb, valSb, valFilters, valIface, valNetwork,
-    valQueryLog, valFltGroups, valSrvGroups, valConnCheck, valAccess] at h
+    valQueryLog, valFltGroups, valSrvGroups, valConnCheck, valAccess, valConnN] at h
   constructor <;> first | omega | (simp_all; done) | (simp_all; omega) | grind
 
 /-- **safe_build_ok.** With safe values none of the start-up constructors panics. -/
@@ -158,7 +158,7 @@ theorem reject_names_property (c : Config) (e : Err) (h : e ∈ validate false c
   obtain ⟨f, k⟩ := e
   have h' := mem_firstOf h
   simp only [List.flatten_cons, List.flatten_nil, List.mem_append, List.not_mem_nil, or_false] at h'
-  rcases h' with h' | h' | h' | h' | h' | h' | h' | h' | h' | h' | h' | h' | h' | h' | h' | h' | h' | h' | h'
+  rcases h' with h' | h' | h' | h' | h' | h' | h' | h' | h' | h' | h' | h' | h' | h' | h' | h' | h' | h' | h' | h'
   · exact names_ratelimit c f k h'
   · exact names_upstream c f k h'
   · exact names_cache c f k h'
@@ -178,6 +178,7 @@ theorem reject_names_property (c : Config) (e : Err) (h : e ∈ validate false c
   · exact names_iface c f k h'
   · exact names_network c f k h'
   · exact names_access c f k h'
+  · exact names_connN c f k h'
 
 example : validate false { dist with est := 0, dbMax := 0 } = [(.rlEst, .notPositive)] := by decide
 example : validate false { dist with flCustom := 0, flMax := 0, flEde := false } =
@@ -225,6 +226,100 @@ theorem huge_pipeline_counterexample :
   exact h { dist with tcpMax := 18446744073709551615 } { is4 := true, tcp := true, respLen := 60 }
     (by decide) .makechan (by decide)
 
+
+/-! ## Cross-references and the stream listeners (round 3) -/
+
+/-- Every cross-reference of the configuration resolves (declarative reading). -/
+structure Resolved (c : Config) : Prop where
+  ports : c.pIl = true → c.ilPort0 ≠ c.ilPort1
+  list : c.fg0List0 = indexListId
+  group : c.sgFg = c.fg0Id ∨ c.sgFg = "family" ∨ c.sgFg = "non_filtering"
+  ifaces : c.pIl = true
+  bind : c.bi0Id = "eth0_plain_dns"
+
+/-- What each start-up error of the conversions claims about the configuration. -/
+def dangling (c : Config) : XErr → Prop
+  | .dupPort => c.pIl = true ∧ c.ilPort0 = c.ilPort1
+  | .unknownList => c.fg0List0 ≠ indexListId
+  | .unknownFg => c.sgFg ≠ c.fg0Id ∧ c.sgFg ≠ "family" ∧ c.sgFg ≠ "non_filtering"
+  | .noIface => c.pIl = false
+  | .unknownIface => c.bi0Id ≠ "eth0_plain_dns" ∧ c.bi0Id ≠ "eth0_plain_dns_secondary"
+  | .dupBind => c.bi0Id = "eth0_plain_dns_secondary"
+
+/-- **xconv_ok_iff.** The conversions succeed exactly when every cross-reference resolves, and then
+they produce the stream listeners counted by `streamN`. -/
+theorem xconv_ok_iff (c : Config) (n : Int) : xconv c = .ok n ↔ Resolved c ∧ n = streamN c := by
+  unfold xconv
+  constructor
+  · intro h
+    repeat' split at h
+    all_goals first | (cases h; done) | skip
+    all_goals
+      injection h with h
+      refine ⟨⟨?_, ?_, ?_, ?_, ?_⟩, h.symm⟩ <;> first | (simp_all; done) | (simp_all; grind) | grind
+  · rintro ⟨r, rfl⟩
+    have h1 := r.ports; have h2 := r.list; have h3 := r.group; have h4 := r.ifaces; have h5 := r.bind
+    simp_all
+
+/-- **xconv_error_dangling.** A start-up error of the conversions names a reference that really does
+not resolve (or a listener that really is declared twice): no crash, no misreport. -/
+theorem xconv_error_dangling (c : Config) (e : XErr) (h : xconv c = .error e) : dangling c e := by
+  unfold xconv at h
+  repeat' split at h
+  all_goals first | (cases h; done) | skip
+  all_goals
+    injection h with h
+    subst h
+    simp_all [dangling]
+
+example : xconv dist = .ok 6 := by decide
+example : xconv { dist with sgFg := "nope" } = .error .unknownFg := by decide
+example : xconv { dist with pIl := false } = .error .noIface := by decide
+example : Resolved dist := ⟨by decide, by decide, by decide, by decide, by decide⟩
+
+/-- **accepted_listeners_accept.** In an accepted configuration every stream listener of the
+configured servers reaches its `Accept` on the fresh connection limiter (C18's model of
+`limitListener`) and none is parked: no listener is starved by the thresholds. -/
+theorem accepted_listeners_accept (c : Config) (h : validate false c = []) (hu : c.clStop < 18446744073709551616) :
+    startListeners c = ((streamN c).toNat, 0) := by
+  have s := validate_sound c h
+  unfold startListeners
+  split
+  · rename_i he
+    have h1 := s.conn he; have h2 := s.connN he
+    apply limStart_all
+    · unfold ConnLimit.two64; omega
+    · omega
+  · rfl
+
+/-- **starved_listeners.** Conversely, with `stop` below the number of stream listeners exactly `stop`
+of them ever accept; the others wait on a limiter that does not accept, with nobody left to wake
+them. -/
+theorem starved_listeners (c : Config) (he : c.clEnabled = true) (h0 : 0 < c.clStop)
+    (hu : c.clStop < 18446744073709551616) (hn : c.clStop < streamN c) :
+    startListeners c = (c.clStop.toNat, (streamN c).toNat - c.clStop.toNat) := by
+  unfold startListeners
+  rw [if_pos he]
+  apply limStart_starved
+  · unfold ConnLimit.two64; omega
+  · omega
+  · omega
+
+example : validate false dist = [] ∧ startListeners dist = (6, 0) := by decide
+
+/-- **legacy_connlimit_counterexample.** On the tree as found `stop: 1, resume: 1` is accepted, all
+cross-references resolve, and five of the six stream listeners never accept a connection. -/
+theorem legacy_connlimit_counterexample :
+    ¬ ∀ c : Config, validate true c = [] → xconv c = .ok (streamN c) → (startListeners c).2 = 0 := by
+  intro h
+  exact absurd (h { dist with clStop := 1, clResume := 1 } (by decide) (by decide)) (by decide)
+
+example : validate false { dist with clStop := 1, clResume := 1 } = [(.rlClResume, .range)] := by decide
+example : validate false { dist with proto1 := "quic", proto2 := "quic", clStop := 4, clResume := 4 } = [] := by decide
+example : validate false { dist with proto1 := "bogus" } = [(.sgProto1, .enum)] := by decide
+example : validate false { dist with proto1 := "dns", proto2 := "dns", proto3 := "dns" } = [(.sgTls, .cross)] := by decide
+example : validate false { dist with fg0Id := "family" } = [(.fg1Id, .dup)] := by decide
+
 /-- **parse_range.** Values that do not fit the Go type never reach validation. -/
 theorem parse_range_uint (v : Int) : Ty.inRange .uint v = true ↔ 0 ≤ v ∧ v < 18446744073709551616 := by
   simp [Ty.inRange]; omega
@@ -244,6 +339,11 @@ theorem parse_range_uint (v : Int) : Ty.inRange .uint v = true ↔ 0 ≤ v ∧ v
 #print axioms huge_count_counterexample
 #print axioms huge_pipeline_counterexample
 #print axioms parse_range_uint
+#print axioms xconv_ok_iff
+#print axioms xconv_error_dangling
+#print axioms accepted_listeners_accept
+#print axioms starved_listeners
+#print axioms legacy_connlimit_counterexample
 
 end Agd.Config
 #print axioms Agd.Tie.TrC20.translation_complete
